@@ -55,7 +55,7 @@ class Controller:
             self.sem[j].release()
 
 
-def run(bodies, first=0, switches=(), prefix=None, timeout=60):
+def run(bodies, first=0, switches=(), prefix=None, timeout=60, granularity='line'):
     """bodies: list of zero-argument callables.  -> (results, counts, log)   results[i] = ('ok', value) | ('exc', exception)"""
     prefix = prefix or ''
     n = len(bodies)
@@ -70,6 +70,9 @@ def run(bodies, first=0, switches=(), prefix=None, timeout=60):
 
         def glob(frame, event, arg):
             if event == 'call' and frame.f_code.co_filename.startswith(prefix):
+                if granularity == 'call':
+                    ctl.point(i)        # one scheduling point per entry into a pydbml function
+                    return None
                 return local
             return None
         return glob
